@@ -97,9 +97,9 @@ CHECKS = {
         design_ref="6/C16"),
     "C17": dict(
         category="exploration", engine="Hostile",
-        technique="TLA+ input-space model (Hostile.tla: generation mode x abstract class of the LLM answer at every call position x turns) enumerated by TLC; classes concretised from a hostile corpus (+ seeded splices); every script driven through LLMRails.generate with a scripted LLM; outcome of every turn judged by TLC (turn completes with a well-formed message, template text delivered literally)",
-        text="Every assignment of 16 output classes (message text beginning with variable syntax, empty, blank, comment-only, wrong prefix, unbalanced quote, multi-line, Colang injection, template/variable syntax, very long, non-ASCII, well-formed, well-formed flow that first waits for the user, import/include directive, body that decides nothing, lone control/meta statement) to the LLM call positions of a turn for the dialog, multi-step, single-call and general modes (Colang 1.0) and the 2.x llm library flows, plus sampled two-turn scripts. Positions x classes are exhaustive for single turns; strings inside a class are samples, hence exploration.",
-        note="trusted: pipeline harness (scripted LLM keyed by task), class concretisation; LLM provider exceptions out of scope",
+        technique="TLA+ input-space model (Hostile.tla: generation mode x abstract class of the LLM answer at every call position x turns) enumerated by TLC; classes concretised from a hostile corpus (+ seeded splices); every script driven through LLMRails.generate with a scripted LLM under a watchdog; outcome of every turn judged by TLC (turn completes with a well-formed message, template / variable text delivered literally)",
+        text="Every assignment of 16 output classes (well-formed, empty, blank, comment-only, wrong prefix, unbalanced quote, multi-line, Colang injection, template/variable syntax, text beginning with variable syntax, very long, non-ASCII, flow that first waits for the user, import/include directive, body that decides nothing, lone control/meta statement) to the LLM call positions of a turn for the dialog, multi-step, single-call and general modes (Colang 1.0) and for the 2.x llm library (intent detection + flow continuation; value generation + flow from name + flow from instructions), plus well-formed-but-misbehaving flow bodies (unknown subflow, failing expression, endless loop, event-less goto loop) where the answer is executed as a flow, plus sampled two-turn scripts. Positions x classes are exhaustive for single turns; strings inside a class are samples, hence exploration. Four known findings (multi-step generation does not contain errors / loops of the generated flow).",
+        note="trusted: pipeline harness (scripted LLM keyed by task; 2.x tasks recognised from the end of the prompt), class concretisation, 25 s watchdog restarted at every LLM call; LLM provider exceptions out of scope; Colang's own `{...}` interpolation inside LLM-generated CODE is not judged",
         design_ref="6/C17"),
     "C18": dict(
         category="model_checking", engine="Stream",
